@@ -246,9 +246,14 @@ pub fn bytes_differ(a: &Vec<u8>, b: &[u8]) -> (r: bool)
 /// the bytes are well-formed UTF-8
 pub uninterp spec fn is_utf8(b: Seq<u8>) -> bool;
 
+/// A3: what reading a file as text gives while one file is processed (a function of the path); None: unreadable or
+/// not UTF-8
+pub uninterp spec fn w_read_text(p: PathV) -> Option<Seq<char>>;
+
 /// fs::read_to_string: the whole content as a String; fails on content that is not UTF-8
 pub assume_specification<Q: core::convert::AsRef<std::path::Path>>[ std::fs::read_to_string::<Q> ](path: Q) -> (r: std::io::Result<String>)
     ensures
+        (match w_read_text(arp(path)) { Some(t) => r is Ok && (r->Ok_0)@ == t, None => r is Err }),
         r.is_ok() ==> fs_exists(arp(path)) && vstd::utf8::encode_utf8((r->Ok_0)@) == fs_bytes(arp(path)) && is_utf8(fs_bytes(arp(path))),
         (os_ok() && fs_exists(arp(path)) && !fs_is_dir(arp(path)) && is_utf8(fs_bytes(arp(path)))) ==> r.is_ok(),
         !is_utf8(fs_bytes(arp(path))) ==> r.is_err(),
